@@ -1355,4 +1355,843 @@ example : visible exState (.inst 3) kS = some (.int 7) ∧ visible exState (.ins
 /-- `dict_semantics`: `setdefault` on a key deleted at this level revives it (fix f6834ef) -/
 example : (step exState (.op (.inst 0) (.setdefault kK (.int 4)))).2 = .val (.int 4) := by decide
 
+/-! # refinement of model A to the layered store B, lifted to histories -/
+
+/-! ## one step of model A = one step of the layered store B -/
+
+theorem SState.ext' {a b : SState} (h1 : a.nclasses = b.nclasses) (h2 : a.mro = b.mro)
+    (h3 : a.fresh = b.fresh) (h4 : a.layer = b.layer) (h5 : a.insts = b.insts) : a = b := by
+  cases a; cases b; simp_all
+
+/-- every class of the store reads its `properties` coherently along its chain -/
+def AllCoherent (σ : State) : Prop := ∀ c, c < σ.classes.length → Coherent σ c
+
+theorem Coherent_of_coherentAt (σ : State) (c : ClassId) (h : coherentAt σ c = true) : Coherent σ c := by
+  simp only [coherentAt, Bool.and_eq_true, List.all_eq_true, beq_iff_eq] at h
+  obtain ⟨h1, h2⟩ := h
+  obtain ⟨d, hd⟩ := Option.isSome_iff_exists.1 h1
+  exact ⟨d, hd, fun x hx => (h2 x hx).trans hd⟩
+
+theorem Coherent_congr {σ σ' : State} (hc : σ'.classes = σ.classes) (c : ClassId) (h : Coherent σ c) :
+    Coherent σ' c := by
+  obtain ⟨d, hd, hall⟩ := h
+  have ho : σ'.ownOf = σ.ownOf := funext (ownOf_congr hc)
+  refine ⟨d, (descOf_congr hc c).trans hd, fun x hx => ?_⟩
+  rw [mroOf_congr hc, ho] at hx
+  exact (descOf_congr hc x).trans (hall x hx)
+
+theorem AllCoherent_congr {σ σ' : State} (hc : σ'.classes = σ.classes) (h : AllCoherent σ) :
+    AllCoherent σ' := fun c hlt => Coherent_congr hc c (h c (hc ▸ hlt))
+
+/-! ### operations through a class view -/
+
+theorem absLayer_setFrame_ne (σ : State) (hs : NoShared σ) (v c' : ClassId) (d : DescId) (f : Frame)
+    (hne : c' ≠ v) : absLayer (σ.setFrame (σ.baseKey v d) f) c' = absLayer σ c' := by
+  simp only [absLayer, descOf_setFrame]
+  cases σ.descOf c' with
+  | none => rfl
+  | some d' =>
+    simp only [State.baseFrame, baseKey_congr (σ := σ) (σ' := σ.setFrame (σ.baseKey v d) f) rfl,
+      frameD_setFrame, if_neg (Ne.symm (baseKey_ne σ hs c' v d d' hne))]
+
+theorem classOp_eq_tWrite (σ : State) (v : ClassId) (d : DescId) (o : Op)
+    (hv : v < σ.classes.length) (hd : σ.descOf v = some d) :
+    (classOp σ v o).1 = (tWrite σ v d o).1 := by
+  cases o <;> simp [classOp, hv, hd, dictLikeRead, tWrite]
+
+theorem tWrite_insts (σ : State) (v : ClassId) (d : DescId) (o : Op) :
+    (tWrite σ v d o).1.insts = σ.insts := by
+  rcases tWrite_state σ v d o with e | ⟨f, e⟩ <;> rw [e]; rfl
+
+theorem classVisible_abs (σ : State) (hwf : WF σ) (v : ClassId) (d : DescId)
+    (hc : Coherent σ v) (hd : σ.descOf v = some d) :
+    classVisible (abs σ) v = fun k => (tGet σ v d k).toOption := by
+  have h := read_is_overlay_class σ hwf v hc
+  rw [show classVisible (abs σ) v = Spec.visible (abs σ) (.cls v) from rfl, ← h]
+  funext k
+  simp only [visible, hd]
+
+/-- a method called through a class view is recorded in that class's layer and nowhere else -/
+theorem refine_classOp (σ : State) (hwf : WF σ) (hs : NoShared σ) (v : ClassId) (o : Op)
+    (hv : v < σ.classes.length) (hc : Coherent σ v) :
+    abs (classOp σ v o).1 = Spec.step (abs σ) (.op (.cls v) o) := by
+  obtain ⟨d, hd, _⟩ := id hc
+  have hvis := classVisible_abs σ hwf v d hc hd
+  simp only [Spec.step]
+  rw [if_pos (show v < (abs σ).nclasses from hv), classOp_eq_tWrite σ v d o hv hd]
+  have hcl := tWrite_classes σ v d o
+  apply SState.ext'
+  · show (tWrite σ v d o).1.classes.length = σ.classes.length
+    rw [hcl]
+  · funext c; exact mroOf_congr hcl c
+  · funext c
+    show ((tWrite σ v d o).1.ownOf c).isSome = _
+    rw [ownOf_congr hcl]; rfl
+  · funext c'
+    show absLayer (tWrite σ v d o).1 c' = fupd (absLayer σ) v (applyOp (classVisible (abs σ) v) (absLayer σ v) o) c'
+    by_cases e : c' = v
+    · subst e
+      have h0 : absLayer σ c' = frameLayer (σ.baseFrame c' d) := by simp only [absLayer, hd]
+      have h1 : absLayer (tWrite σ c' d o).1 c' = frameLayer ((tWrite σ c' d o).1.baseFrame c' d) := by
+        simp only [absLayer, descOf_congr hcl, hd]
+      simp only [fupd, if_true]
+      rw [hvis, h0, h1, tWrite_layer]
+    · simp only [fupd, if_neg e]
+      rcases tWrite_state σ v d o with h | ⟨f, h⟩ <;> rw [h]
+      exact absLayer_setFrame_ne σ hs v c' d f e
+  · show (tWrite σ v d o).1.insts.map absInst = σ.insts.map absInst
+    rw [tWrite_insts]
+
+/-! ### operations through an instance view -/
+
+theorem set_self_of_getElem? {α : Type} (l : List α) (i : Nat) (a : α) (h : l[i]? = some a) :
+    l.set i a = l := by
+  apply List.ext_getElem?
+  intro j
+  by_cases e : i = j
+  · subst e
+    rw [List.getElem?_set_self (lt_of_getElem? l i a h), h]
+  · rw [List.getElem?_set_ne e]
+
+theorem abs_setInst (σ : State) (i : InstId) (y : Inst) :
+    abs (setInst σ i y) = { abs σ with insts := (abs σ).insts.set i (absInst y) } := by
+  refine SState.ext' rfl rfl rfl rfl ?_
+  show (σ.insts.set i y).map absInst = (σ.insts.map absInst).set i (absInst y)
+  rw [List.map_set]
+
+theorem abs_insts_get (σ : State) (i : InstId) : (abs σ).insts[i]? = (σ.insts[i]?).map absInst := by
+  simp [abs]
+
+/-- the state an `_InstanceLookup` method leaves: only `local` may have changed -/
+theorem instOp_storage (σ : State) (i : InstId) (x : Inst) (f : Frame) (d : DescId) (o : Op)
+    (hx : σ.insts[i]? = some x) (hloc : x.loc = .storage f) (hd : σ.descOf x.cls = some d) :
+    abs (instOp σ i o).1
+      = { abs σ with insts := (abs σ).insts.set i (.attached x.cls (frameLayer (iWrite σ f x.cls d o).1)) } := by
+  have hself : abs σ = { abs σ with insts := (abs σ).insts.set i (.attached x.cls (frameLayer f)) } := by
+    refine SState.ext' rfl rfl rfl rfl ?_
+    symm
+    apply set_self_of_getElem?
+    rw [abs_insts_get, hx]
+    simp [absInst, hloc]
+  cases o <;> simp only [instOp, hx, hloc, hd, dictLikeRead, iWrite] <;>
+    first
+      | exact hself
+      | (rw [abs_setInst]; rfl)
+      | (split <;> first | exact hself | (rw [abs_setInst]; rfl))
+
+theorem iWrite_clear_guarded (σ : State) (f : Frame) (c : ClassId) (d : DescId) (below : Mapping)
+    (hb : below = fun k => (tGet σ c d k).toOption)
+    (hg : f.any (fun kv => (tGet σ c d kv.1).toOption.isNone) = false) :
+    frameLayer (iWrite σ f c d .clear).1
+      = applyOp (overlay below (frameLayer f)) (frameLayer f) .clear := by
+  rw [iWrite_clear_layer]
+  funext k
+  simp only [applyOp, overlay, frameLayer, hb]
+  cases hl : AList.get? f k with
+  | none => simp
+  | some s =>
+    have hmem := mem_of_get? f k s hl
+    have hall := List.any_eq_false.1 hg (k, s) hmem
+    simp only [Option.isNone_iff_eq_none] at hall
+    cases hk : (tGet σ c d k).toOption with
+    | none => exact absurd hk hall
+    | some v => cases s <;> simp
+
+theorem refine_instOp (σ : State) (hwf : WF σ) (hco : AllCoherent σ) (i : InstId) (o : Op)
+    (hg : badClear σ (.op (.inst i) o) = false) :
+    abs (instOp σ i o).1 = Spec.step (abs σ) (.op (.inst i) o) := by
+  cases hx : σ.insts[i]? with
+  | none =>
+    have hi : (abs σ).insts[i]? = none := by rw [abs_insts_get, hx]; rfl
+    simp only [Spec.step, hi, instOp, hx]
+  | some x =>
+    cases hloc : x.loc with
+    | plain m =>
+      have hi : (abs σ).insts[i]? = some (.detached x.cls m) := by
+        rw [abs_insts_get, hx]; simp [absInst, hloc]
+      simp only [Spec.step, hi, instOp, hx, hloc, abs_setInst]
+      rfl
+    | storage f =>
+      have hcx := hco x.cls (hwf.inst_lt i x hx)
+      obtain ⟨d, hd, _⟩ := id hcx
+      have hvis := classVisible_abs σ hwf x.cls d hcx hd
+      have hi : (abs σ).insts[i]? = some (.attached x.cls (frameLayer f)) := by
+        rw [abs_insts_get, hx]; simp [absInst, hloc]
+      rw [instOp_storage σ i x f d o hx hloc hd]
+      simp only [Spec.step, hi]
+      have key : frameLayer (iWrite σ f x.cls d o).1
+          = applyOp (overlay (classVisible (abs σ) x.cls) (frameLayer f)) (frameLayer f) o := by
+        by_cases hc : o = .clear
+        · subst hc
+          apply iWrite_clear_guarded σ f x.cls d _ hvis
+          obtain ⟨c, l⟩ := x
+          simp only at hloc hd
+          subst hloc
+          simpa [badClear, hx, hd] using hg
+        · rw [iWrite_layer σ f x.cls d o hc, hvis]
+          congr 1
+          funext k
+          exact iGet_overlay σ f x.cls d k
+      rw [key]
+
+/-! ### deriving a class -/
+
+theorem descOf_ge (σ : State) (c : ClassId) (h : σ.classes.length ≤ c) : σ.descOf c = none := by
+  simp [State.descOf, mroOf_ge σ c h]
+
+theorem absLayer_ge (σ : State) (c : ClassId) (h : σ.classes.length ≤ c) : absLayer σ c = Layer.empty := by
+  simp only [absLayer, descOf_ge σ c h]
+
+/-- the layer of an existing class is not changed by a derivation: new class, possibly a new
+    descriptor, new frames only under the new descriptor id -/
+theorem absLayer_extend (σ τ : State) (hwf : WF σ) (tail : List ClassId) (own : Option DescId)
+    (hcl : τ.classes = (addClass σ tail own).classes)
+    (hframes : ∀ key, (∀ d, key = FrameKey.init d → d < σ.ndesc) →
+      (∀ d c, key = FrameKey.cls d c → d < σ.ndesc) → AList.get? τ.frames key = AList.get? σ.frames key)
+    (c : ClassId) (hc : c < σ.classes.length) : absLayer τ c = absLayer σ c := by
+  have hm : ∀ c, c < σ.classes.length → τ.mroOf c = σ.mroOf c := by
+    intro c hc
+    exact (mroOf_congr (σ := addClass σ tail own) hcl c).trans
+      (by rw [mroOf_addClass, if_neg (ne_of_lt' hc)])
+  have ho : ∀ c, c < σ.classes.length → τ.ownOf c = σ.ownOf c := by
+    intro c hc
+    exact (ownOf_congr (σ := addClass σ tail own) hcl c).trans
+      (by rw [ownOf_addClass, if_neg (ne_of_lt' hc)])
+  have hd : τ.descOf c = σ.descOf c :=
+    descOf_ext σ τ c (hm c hc) (fun x hx => ho x (hwf.mro_lt c x hx))
+  simp only [absLayer, hd]
+  cases hdc : σ.descOf c with
+  | none => rfl
+  | some d =>
+    obtain ⟨y, _, hoy⟩ := descOf_owner σ c d hdc
+    have hlt := hwf.own_lt y d hoy
+    have hk : τ.baseKey c d = σ.baseKey c d := by
+      unfold State.baseKey State.owns; rw [ho c hc]
+    simp only [State.baseFrame, State.frameD, hk]
+    rw [hframes]
+    · intro d' e; unfold State.baseKey at e; split at e <;> simp at e; exact e ▸ hlt
+    · intro d' c' e; unfold State.baseKey at e; split at e <;> simp at e; exact e.1 ▸ hlt
+
+/-- deriving a class adds one class with one layer to the layered store and changes nothing else -/
+theorem abs_extend (σ τ : State) (hwf : WF σ) (tail : List ClassId) (own : Option DescId)
+    (hcl : τ.classes = (addClass σ tail own).classes) (hin : τ.insts = σ.insts)
+    (hframes : ∀ key, (∀ d, key = FrameKey.init d → d < σ.ndesc) →
+      (∀ d c, key = FrameKey.cls d c → d < σ.ndesc) → AList.get? τ.frames key = AList.get? σ.frames key)
+    (l : Layer) (hl : absLayer τ σ.classes.length = l) :
+    abs τ = Spec.addClass (abs σ) tail own.isSome l := by
+  have hlen : τ.classes.length = σ.classes.length + 1 := by rw [hcl, length_addClass]
+  apply SState.ext'
+  · exact hlen
+  · funext c
+    show τ.mroOf c = fupd σ.mroOf σ.classes.length (σ.classes.length :: tail) c
+    rw [mroOf_congr (σ := addClass σ tail own) hcl c, mroOf_addClass]; rfl
+  · funext c
+    show (τ.ownOf c).isSome = fupd (fun c => (σ.ownOf c).isSome) σ.classes.length own.isSome c
+    rw [ownOf_congr (σ := addClass σ tail own) hcl c, ownOf_addClass]
+    simp only [fupd]; split <;> rfl
+  · funext c
+    show absLayer τ c = fupd (absLayer σ) σ.classes.length l c
+    simp only [fupd]
+    rcases Nat.lt_trichotomy c σ.classes.length with h | h | h
+    · rw [if_neg (ne_of_lt' h)]; exact absLayer_extend σ τ hwf tail own hcl hframes c h
+    · rw [if_pos h, h]; exact hl
+    · rw [if_neg (Nat.ne_of_gt h), absLayer_ge σ c (Nat.le_of_lt h), absLayer_ge τ c (by omega)]
+  · show τ.insts.map absInst = σ.insts.map absInst
+    rw [hin]
+
+theorem frames_fresh_cls (σ : State) (hwf : WF σ) (d : DescId) :
+    AList.get? σ.frames (.cls d σ.classes.length) = none := by
+  rw [get?_eq_none_iff]
+  intro h
+  obtain ⟨p, hp, e⟩ := List.mem_map.1 h
+  obtain ⟨key, f⟩ := p
+  simp only at e
+  subst e
+  exact Nat.lt_irrefl _ (hwf.key_lt _ f hp).2
+
+/-- a class derived without a `properties` argument starts with an empty layer -/
+theorem abs_addClass_none (σ : State) (hwf : WF σ) (tail : List ClassId) :
+    abs (addClass σ tail none) = Spec.addClass (abs σ) tail false Layer.empty := by
+  apply abs_extend σ _ hwf tail none rfl rfl (fun _ _ _ => rfl)
+  simp only [absLayer]
+  cases hd : (addClass σ tail none).descOf σ.classes.length with
+  | none => rfl
+  | some d =>
+    have ho : (addClass σ tail none).owns σ.classes.length d = false := by
+      simp [State.owns, ownOf_addClass]
+    simp only [State.baseFrame, State.baseKey, ho, Bool.false_eq_true, if_false, State.frameD]
+    rw [show (addClass σ tail none).frames = σ.frames from rfl, frames_fresh_cls σ hwf d]
+    rfl
+
+/-- `using(properties={…})` starts a fresh mapping holding exactly the given pairs -/
+theorem abs_usingPropsStep (σ : State) (hwf : WF σ) (p : ClassId) (init : List (Key × Val)) :
+    abs (usingPropsStep σ p init) = Spec.addClass (abs σ) (σ.mroOf p) true (layerOfPairs init) := by
+  apply abs_extend σ (usingPropsStep σ p init) hwf (σ.mroOf p) (some σ.ndesc) rfl rfl
+  · intro key h1 h2
+    show AList.get? (AList.set σ.frames (.init σ.ndesc) _) key = _
+    rw [get?_set, if_neg]
+    intro e
+    exact Nat.lt_irrefl _ (h1 σ.ndesc e.symm)
+  · have ho : (usingPropsStep σ p init).ownOf σ.classes.length = some σ.ndesc := by
+      exact (ownOf_congr (σ := addClass σ (σ.mroOf p) (some σ.ndesc)) (σ' := usingPropsStep σ p init) rfl _).trans
+        (by rw [ownOf_addClass, if_pos rfl])
+    have hm : (usingPropsStep σ p init).mroOf σ.classes.length = σ.classes.length :: σ.mroOf p := by
+      exact (mroOf_congr (σ := addClass σ (σ.mroOf p) (some σ.ndesc)) (σ' := usingPropsStep σ p init) rfl _).trans
+        (by rw [mroOf_addClass, if_pos rfl])
+    have hd := descOf_of_head _ _ _ _ hm ho
+    have hown : (usingPropsStep σ p init).owns σ.classes.length σ.ndesc = true := by
+      simp [State.owns, ho]
+    simp only [absLayer, hd, State.baseFrame, State.baseKey, hown, if_true, State.frameD]
+    rw [show (usingPropsStep σ p init).frames = AList.set σ.frames (.init σ.ndesc) (valFrame init) from rfl,
+      get?_set, if_pos rfl, layerOfPairs_eq]
+    rfl
+
+/-! ### coherence is kept by every derivation except the mixed-descriptor `class X(A, B)` -/
+
+theorem mem_cut {fr : ClassId → Bool} {l : List ClassId} {x : ClassId} (h : x ∈ cut fr l) : x ∈ l := by
+  induction l with
+  | nil => simp [cut] at h
+  | cons a r ih =>
+    simp only [cut] at h
+    split at h
+    · simp only [List.mem_singleton] at h; rw [h]; exact List.mem_cons_self ..
+    · rcases List.mem_cons.1 h with h | h
+      · rw [h]; exact List.mem_cons_self ..
+      · exact List.mem_cons_of_mem _ (ih h)
+
+theorem cut_congr (fr fr' : ClassId → Bool) (l : List ClassId) (h : ∀ x ∈ l, fr x = fr' x) :
+    cut fr l = cut fr' l := by
+  induction l with
+  | nil => rfl
+  | cons a r ih =>
+    simp only [cut, h a (List.mem_cons_self ..), ih (fun x hx => h x (List.mem_cons_of_mem _ hx))]
+
+section extend
+set_option linter.unusedSectionVars false
+variable (σ τ : State) (hwf : WF σ) (tail : List ClassId) (own : Option DescId)
+  (hcl : τ.classes = (addClass σ tail own).classes)
+include hwf hcl
+
+theorem mroOf_extend (c : ClassId) (hc : c < σ.classes.length) : τ.mroOf c = σ.mroOf c :=
+  (mroOf_congr (σ := addClass σ tail own) hcl c).trans (by rw [mroOf_addClass, if_neg (ne_of_lt' hc)])
+
+theorem ownOf_extend (c : ClassId) (hc : c < σ.classes.length) : τ.ownOf c = σ.ownOf c :=
+  (ownOf_congr (σ := addClass σ tail own) hcl c).trans (by rw [ownOf_addClass, if_neg (ne_of_lt' hc)])
+
+theorem descOf_extend (c : ClassId) (hc : c < σ.classes.length) : τ.descOf c = σ.descOf c :=
+  descOf_ext σ τ c (mroOf_extend σ τ hwf tail own hcl c hc)
+    (fun x hx => ownOf_extend σ τ hwf tail own hcl x (hwf.mro_lt c x hx))
+
+theorem cut_extend (l : List ClassId) (hl : ∀ x ∈ l, x < σ.classes.length) :
+    cut (fun x => (τ.ownOf x).isSome) l = cut (fun x => (σ.ownOf x).isSome) l :=
+  cut_congr _ _ l (fun x hx => by simp only [ownOf_extend σ τ hwf tail own hcl x (hl x hx)])
+
+theorem Coherent_extend (c : ClassId) (hc : c < σ.classes.length) (h : Coherent σ c) : Coherent τ c := by
+  obtain ⟨d, hd, hall⟩ := h
+  refine ⟨d, (descOf_extend σ τ hwf tail own hcl c hc).trans hd, fun x hx => ?_⟩
+  rw [mroOf_extend σ τ hwf tail own hcl c hc,
+    cut_extend σ τ hwf tail own hcl _ (fun y hy => hwf.mro_lt c y hy)] at hx
+  exact (descOf_extend σ τ hwf tail own hcl x (hwf.mro_lt c x (mem_cut hx))).trans (hall x hx)
+
+theorem AllCoherent_extend (hco : AllCoherent σ) (hnew : Coherent τ σ.classes.length) : AllCoherent τ := by
+  intro c hc
+  rw [hcl, length_addClass] at hc
+  rcases Nat.lt_or_ge c σ.classes.length with h | h
+  · exact Coherent_extend σ τ hwf tail own hcl c h (hco c h)
+  · have : c = σ.classes.length := by omega
+    rw [this]; exact hnew
+
+end extend
+
+/-- a class derived from `p` without a `properties` argument continues `p`'s chain -/
+theorem Coherent_new_none (σ : State) (hwf : WF σ) (p : ClassId)
+    (h : Coherent σ p) : Coherent (addClass σ (σ.mroOf p) none) σ.classes.length := by
+  obtain ⟨d, hd, hall⟩ := h
+  have hm : (addClass σ (σ.mroOf p) none).mroOf σ.classes.length = σ.classes.length :: σ.mroOf p := by
+    rw [mroOf_addClass, if_pos rfl]
+  have ho : (addClass σ (σ.mroOf p) none).ownOf σ.classes.length = none := by
+    rw [ownOf_addClass, if_pos rfl]
+  have hlt : ∀ x ∈ σ.mroOf p, x < σ.classes.length := fun x hx => hwf.mro_lt p x hx
+  have hdn : (addClass σ (σ.mroOf p) none).descOf σ.classes.length = some d := by
+    unfold State.descOf
+    rw [hm, List.findSome?_cons, ho]
+    simp only
+    rw [findSome?_ext _ σ.ownOf _ (fun x hx => ownOf_extend σ _ hwf _ none rfl x (hlt x hx))]
+    exact hd
+  refine ⟨d, hdn, fun x hx => ?_⟩
+  rw [hm] at hx
+  simp only [cut, ho, Option.isSome_none, Bool.false_eq_true, if_false] at hx
+  rcases List.mem_cons.1 hx with e | hx
+  · rw [e]; exact hdn
+  · rw [cut_extend σ _ hwf _ none rfl _ hlt] at hx
+    exact (descOf_extend σ _ hwf _ none rfl x (hlt x (mem_cut hx))).trans (hall x hx)
+
+/-- a class made with `using(properties=…)` starts its own chain -/
+theorem Coherent_new_some (σ τ : State) (tail : List ClassId) (d : DescId)
+    (hcl : τ.classes = (addClass σ tail (some d)).classes) : Coherent τ σ.classes.length := by
+  have hm : τ.mroOf σ.classes.length = σ.classes.length :: tail :=
+    (mroOf_congr (σ := addClass σ tail (some d)) hcl _).trans (by rw [mroOf_addClass, if_pos rfl])
+  have ho : τ.ownOf σ.classes.length = some d :=
+    (ownOf_congr (σ := addClass σ tail (some d)) hcl _).trans (by rw [ownOf_addClass, if_pos rfl])
+  have hd := descOf_of_head τ _ _ _ hm ho
+  refine ⟨d, hd, fun x hx => ?_⟩
+  rw [hm] at hx
+  simp only [cut, ho, Option.isSome_some, if_true, List.mem_singleton] at hx
+  rw [hx]; exact hd
+
+theorem AllCoherent_initState (init : List (Key × Val)) : AllCoherent (initState init) := by
+  intro c hc
+  have : c = 0 := by simp [initState] at hc; exact hc
+  subst this
+  exact Coherent_new_some ⟨[], 0, [], []⟩ (initState init) [] 0 rfl
+
+/-! ### the guards, the invariant, and the one-step refinement -/
+
+/-- KF-C17-c excluded: a `class X(b1, b2, …)` statement must produce a class whose chain resolves
+    `properties` to one descriptor (always the case unless one base line restarted `properties`
+    with `using(properties=…)` and an earlier one did not) -/
+def miGuard (σ : State) : Cmd → Bool
+  | .subclassMI tail =>
+    !(tail.all (· < σ.classes.length)) || coherentAt (addClass σ tail none) σ.classes.length
+  | _ => true
+
+/-- the guard of one command, judged in the state it is executed in: a legal MRO tail, no
+    `Properties` object handed to a second class (KF-C17-b), no instance `clear()` while the
+    instance holds a key its class does not show (KF-C17-a), no mixed-descriptor MRO (KF-C17-c) -/
+def cmdGuard (σ : State) (c : Cmd) : Bool :=
+  decide (CmdOK c) && decide (NoSharing c) && !(badClear σ c) && miGuard σ c
+
+/-- the guard of a whole history -/
+def histGuard : State → List Cmd → Bool
+  | _, [] => true
+  | σ, c :: cs => cmdGuard σ c && histGuard (step σ c).1 cs
+
+theorem cmdGuard_iff (σ : State) (c : Cmd) :
+    cmdGuard σ c = true ↔ CmdOK c ∧ NoSharing c ∧ badClear σ c = false ∧ miGuard σ c = true := by
+  simp only [cmdGuard, Bool.and_eq_true, decide_eq_true_eq, Bool.not_eq_true', and_assoc]
+
+/-- what the refinement needs of a state; holds initially and is kept by every guarded step -/
+structure Inv (σ : State) : Prop where
+  wf : WF σ
+  ns : NoShared σ
+  co : AllCoherent σ
+
+theorem classOp_classes (σ : State) (v : ClassId) (o : Op) : (classOp σ v o).1.classes = σ.classes := by
+  rcases classOp_state σ v o with e | ⟨d, f, e⟩ <;> rw [e]; rfl
+
+theorem instOp_classes (σ : State) (i : InstId) (o : Op) : (instOp σ i o).1.classes = σ.classes := by
+  rcases instOp_state σ i o with e | ⟨x, e⟩ <;> rw [e]; rfl
+
+theorem AllCoherent_step (σ : State) (hwf : WF σ) (hco : AllCoherent σ) (cmd : Cmd)
+    (hmi : miGuard σ cmd = true) : AllCoherent (step σ cmd).1 := by
+  cases cmd with
+  | op V o =>
+    cases V with
+    | cls c => exact AllCoherent_congr (classOp_classes σ c o) hco
+    | inst i => exact AllCoherent_congr (instOp_classes σ i o) hco
+  | subclass p =>
+    simp only [step]; split
+    · rename_i hp
+      exact AllCoherent_extend σ _ hwf _ none rfl hco (Coherent_new_none σ hwf p (hco p hp))
+    · exact hco
+  | subclassMI tail =>
+    simp only [step]; split
+    · rename_i ht
+      simp only [miGuard, ht, Bool.not_true, Bool.false_or] at hmi
+      exact AllCoherent_extend σ _ hwf _ none rfl hco (Coherent_of_coherentAt _ _ hmi)
+    · exact hco
+  | usingProps p init =>
+    simp only [step]; split
+    · exact AllCoherent_extend σ (usingPropsStep σ p init) hwf _ (some σ.ndesc) rfl hco
+        (Coherent_new_some σ _ _ σ.ndesc rfl)
+    · exact hco
+  | usingShared p ow =>
+    simp only [step]; split
+    · split
+      · rename_i d _
+        exact AllCoherent_extend σ _ hwf _ (some d) rfl hco (Coherent_new_some σ _ _ d rfl)
+      · exact hco
+    · exact hco
+  | withProps p ps =>
+    simp only [step]; split
+    · rename_i hp
+      exact AllCoherent_congr (classOp_classes _ _ _)
+        (AllCoherent_extend σ _ hwf _ none rfl hco (Coherent_new_none σ hwf p (hco p hp)))
+    · exact hco
+  | newInst c => simp only [step]; split <;> first | exact AllCoherent_congr rfl hco | exact hco
+  | newInstWith c m => simp only [step]; split <;> first | exact AllCoherent_congr rfl hco | exact hco
+  | assign i m => simp only [step]; split <;> first | exact hco | exact AllCoherent_congr rfl hco
+  | newInstCompound c m =>
+    simp only [step]; split
+    · exact AllCoherent_congr (σ := usingPropsStep σ c m) rfl
+        (AllCoherent_extend σ (usingPropsStep σ c m) hwf _ (some σ.ndesc) rfl hco
+          (Coherent_new_some σ _ _ σ.ndesc rfl))
+    · exact hco
+
+theorem Inv_step (σ : State) (h : Inv σ) (cmd : Cmd) (hg : cmdGuard σ cmd = true) : Inv (step σ cmd).1 := by
+  obtain ⟨hok, hn, _, hmi⟩ := (cmdGuard_iff σ cmd).1 hg
+  exact ⟨WF_step σ h.wf cmd hok, NoShared_step σ h.wf h.ns cmd hn, AllCoherent_step σ h.wf h.co cmd hmi⟩
+
+theorem Inv_initState (init : List (Key × Val)) : Inv (initState init) :=
+  ⟨WF_initState init, NoShared_initState init, AllCoherent_initState init⟩
+
+theorem abs_addInst (σ : State) (y : Inst) :
+    abs { σ with insts := σ.insts ++ [y] } = { abs σ with insts := (abs σ).insts ++ [absInst y] } := by
+  refine SState.ext' rfl rfl rfl rfl ?_
+  show (σ.insts ++ [y]).map absInst = σ.insts.map absInst ++ [absInst y]
+  rw [List.map_append]; rfl
+
+/-- **One step of model A is one step of the layered store.**  Under the guards, executing a
+    command on the frames / descriptors / `__dict__` entries of the model and then reading off the
+    layers gives the same layered store as recording the command in the layer of the view it was
+    made through. -/
+theorem refine_step (σ : State) (h : Inv σ) (cmd : Cmd) (hg : cmdGuard σ cmd = true) :
+    abs (step σ cmd).1 = Spec.step (abs σ) cmd := by
+  obtain ⟨_, hn, hbc, _⟩ := (cmdGuard_iff σ cmd).1 hg
+  have hwf := h.wf
+  have hnc : (abs σ).nclasses = σ.classes.length := rfl
+  cases cmd with
+  | op V o =>
+    cases V with
+    | cls c =>
+      by_cases hc : c < σ.classes.length
+      · exact refine_classOp σ hwf h.ns c o hc (h.co c hc)
+      · simp only [step, classOp, Spec.step, hnc, hc, if_false]
+    | inst i => exact refine_instOp σ hwf h.co i o hbc
+  | subclass p =>
+    simp only [step, Spec.step, hnc]; split
+    · exact abs_addClass_none σ hwf _
+    · rfl
+  | subclassMI tail =>
+    simp only [step, Spec.step, hnc]; split
+    · exact abs_addClass_none σ hwf _
+    · rfl
+  | usingProps p init =>
+    simp only [step, Spec.step, hnc]; split
+    · exact abs_usingPropsStep σ hwf p init
+    · rfl
+  | usingShared p ow => exact absurd hn (by simp [NoSharing])
+  | withProps p ps =>
+    simp only [step, Spec.step, hnc]; split
+    · rename_i hp
+      have hwf1 := WF_addClass σ hwf (σ.mroOf p) none (fun x hx => hwf.mro_lt p x hx) (hwf.mro_nodup p) (by simp)
+      have hs1 := NoShared_addClass σ h.ns (σ.mroOf p) none (by simp)
+      have hc1 := Coherent_new_none σ hwf p (h.co p hp)
+      rw [refine_classOp _ hwf1 hs1 σ.classes.length (.update ps) (by simp [addClass]) hc1,
+        abs_addClass_none σ hwf]
+      simp only [Spec.step, Spec.addClass, hnc, Nat.lt_succ_self, if_true]
+      refine SState.ext' rfl rfl rfl ?_ rfl
+      funext c
+      simp only [fupd]
+      split
+      · simp only [applyOp, layerOfPairs, if_true]
+      · rfl
+    · rfl
+  | newInst c =>
+    simp only [step, Spec.step, hnc]; split
+    · exact abs_addInst σ _
+    · rfl
+  | newInstWith c m =>
+    simp only [step, Spec.step, hnc]; split
+    · exact abs_addInst σ _
+    · rfl
+  | assign i m =>
+    cases hx : σ.insts[i]? with
+    | none =>
+      have hi : (abs σ).insts[i]? = none := by rw [abs_insts_get, hx]; rfl
+      simp only [step, Spec.step, hi, hx]
+    | some x =>
+      cases hloc : x.loc with
+      | plain m' =>
+        have hi : (abs σ).insts[i]? = some (.detached x.cls m') := by
+          rw [abs_insts_get, hx]; simp [absInst, hloc]
+        simp only [step, Spec.step, hi, hx, abs_setInst]; rfl
+      | storage f =>
+        have hi : (abs σ).insts[i]? = some (.attached x.cls (frameLayer f)) := by
+          rw [abs_insts_get, hx]; simp [absInst, hloc]
+        simp only [step, Spec.step, hi, hx, abs_setInst]; rfl
+  | newInstCompound c m =>
+    simp only [step, Spec.step, hnc]; split
+    · have := abs_addInst (usingPropsStep σ c m) ⟨σ.classes.length, .storage []⟩
+      rw [abs_usingPropsStep σ hwf c m] at this
+      exact this
+    · rfl
+
+/-! ## whole histories -/
+
+/-- the refinement and the invariant along every guarded history -/
+theorem refine_run : ∀ (cmds : List Cmd) (σ : State), Inv σ → histGuard σ cmds = true →
+    abs (run σ cmds).1 = Spec.run (abs σ) cmds ∧ Inv (run σ cmds).1
+  | [], _, h, _ => ⟨rfl, h⟩
+  | c :: cs, σ, h, hg => by
+    simp only [histGuard, Bool.and_eq_true] at hg
+    have ih := refine_run cs (step σ c).1 (Inv_step σ h c hg.1) hg.2
+    simp only [run, Spec.run, List.foldl_cons]
+    rw [← refine_step σ h c hg.1]
+    exact ih
+
+/-- in a well-formed coherent store every view — existing or not — reads as the overlay of the
+    layers of its chain -/
+theorem read_is_overlay_all (σ : State) (hwf : WF σ) (hco : AllCoherent σ) (v : View) :
+    visible σ v = Spec.visible (abs σ) v := by
+  cases v with
+  | cls c =>
+    by_cases hc : c < σ.classes.length
+    · exact read_is_overlay_class σ hwf c (hco c hc)
+    · have hge : σ.classes.length ≤ c := Nat.le_of_not_lt hc
+      funext k
+      simp only [visible, descOf_ge σ c hge, Spec.visible, classVisible, chain]
+      rw [show (abs σ).mro c = σ.mroOf c from rfl, mroOf_ge σ c hge]
+      rfl
+  | inst i =>
+    cases hx : σ.insts[i]? with
+    | none =>
+      have hi : (abs σ).insts[i]? = none := by rw [abs_insts_get, hx]; rfl
+      funext k
+      simp only [visible, hx, Spec.visible, hi]
+      rfl
+    | some x => exact read_is_overlay_inst σ hwf i x hx (hco x.cls (hwf.inst_lt i x hx))
+
+/-- the guarded history form, from any store satisfying the invariant -/
+theorem c17_histories_from (σ : State) (h : Inv σ) (cmds : List Cmd) (hg : histGuard σ cmds = true)
+    (v : View) : visible (run σ cmds).1 v = Spec.visible (Spec.run (abs σ) cmds) v := by
+  obtain ⟨hr, hi⟩ := refine_run cmds σ h hg
+  rw [← hr]
+  exact read_is_overlay_all _ hi.wf hi.co v
+
+/-- `C17_Full` restricted to the histories that stay outside the three open findings -/
+def C17_Partial : Prop :=
+  ∀ (init : List (Key × Val)) (cmds : List Cmd) (v : View) (k : Key),
+    histGuard (initState init) cmds = true →
+    visible (run (initState init) cmds).1 v k
+      = Spec.visible (Spec.run (abs (initState init)) cmds) v k
+
+/-- **C17, sentence 1, over whole histories (guarded).**  After every history of commands from a
+    fresh root that contains no instance `clear()` over a key unknown to the class (KF-C17-a), no
+    `using(properties=<shared Properties object>)` (KF-C17-b) and no mixed-descriptor
+    `class X(A, B)` (KF-C17-c), every view — class or instance, existing or not — reads exactly as
+    the layered store of the property text reads after the same history: its own writes and
+    tombstones over what its parents show, instances over their class, nothing flowing upward. -/
+theorem c17_histories_partial : C17_Partial := fun init cmds v k hg =>
+  congrFun (c17_histories_from (initState init) (Inv_initState init) cmds hg v) k
+
+/-- the guard is what separates `C17_Partial` from the refuted `C17_Full`: each of the three
+    negation witnesses is rejected by it -/
+theorem histGuard_rejects_witnesses :
+    histGuard (initState []) witnessClear = false ∧
+    histGuard (initState [(kS, .int 1)]) witnessShared = false ∧
+    histGuard (initState []) witnessMI = false := by decide
+
+/-! ### what the methods return along a history -/
+
+/-- local storage of every attached instance is a Python dict: distinct keys -/
+def LocalNodup (σ : State) : Prop :=
+  ∀ (i : Nat) (x : Inst) (f : Frame), σ.insts[i]? = some x → x.loc = .storage f → (f.map (·.1)).Nodup
+
+theorem LocalNodup_of (σ τ : State) (h : LocalNodup σ)
+    (hi : ∀ (j : Nat) (y : Inst), τ.insts[j]? = some y →
+      σ.insts[j]? = some y ∨ ∀ f : Frame, y.loc = .storage f → (f.map (·.1)).Nodup) : LocalNodup τ := by
+  intro j y f hy hl
+  rcases hi j y hy with h' | h'
+  · exact h j y f h' hl
+  · exact h' f hl
+
+theorem LocalNodup_same (σ τ : State) (h : LocalNodup σ) (hi : τ.insts = σ.insts) : LocalNodup τ :=
+  LocalNodup_of σ τ h (fun _ _ hy => Or.inl (hi ▸ hy))
+
+theorem LocalNodup_setInst (σ : State) (h : LocalNodup σ) (i : InstId) (y : Inst)
+    (hy : ∀ f : Frame, y.loc = .storage f → (f.map (·.1)).Nodup) : LocalNodup (setInst σ i y) := by
+  apply LocalNodup_of σ _ h
+  intro j z hz
+  simp only [setInst] at hz
+  by_cases e : i = j
+  · subst e
+    rcases Nat.lt_or_ge i σ.insts.length with hl | hl
+    · rw [List.getElem?_set_self hl] at hz
+      simp only [Option.some.injEq] at hz; subst hz; exact Or.inr hy
+    · rw [List.getElem?_eq_none (by simp; omega)] at hz; simp at hz
+  · rw [List.getElem?_set_ne e] at hz; exact Or.inl hz
+
+theorem LocalNodup_addInst (σ : State) (h : LocalNodup σ) (y : Inst)
+    (hy : ∀ f : Frame, y.loc = .storage f → (f.map (·.1)).Nodup) :
+    LocalNodup { σ with insts := σ.insts ++ [y] } := by
+  apply LocalNodup_of σ _ h
+  intro j z hz
+  simp only [getElem?_append_singleton] at hz
+  split at hz
+  · simp only [Option.some.injEq] at hz; subst hz; exact Or.inr hy
+  · exact Or.inl hz
+
+theorem LocalNodup_instOp (σ : State) (h : LocalNodup σ) (i : InstId) (o : Op) :
+    LocalNodup (instOp σ i o).1 := by
+  unfold instOp
+  split
+  · exact h
+  · rename_i x hx
+    split
+    · exact LocalNodup_setInst σ h i _ (fun f hf => by simp at hf)
+    · rename_i f hloc
+      split
+      · exact h
+      · rename_i d hd
+        split
+        · exact h
+        · apply LocalNodup_setInst σ h i
+          intro f' hf'
+          simp only [Local.storage.injEq] at hf'
+          subst hf'
+          exact iWrite_nodup σ f x.cls d o (h i x f hx hloc)
+
+theorem LocalNodup_step (σ : State) (h : LocalNodup σ) (cmd : Cmd) : LocalNodup (step σ cmd).1 := by
+  have hnil : ∀ (c : ClassId) (f : Frame), (Inst.mk c (.storage [])).loc = .storage f → (f.map (·.1)).Nodup := by
+    intro c f hf; simp only [Local.storage.injEq] at hf; subst hf; simp
+  have hplain : ∀ (c : ClassId) (m : Dict Val) (f : Frame),
+      (Inst.mk c (.plain m)).loc = .storage f → (f.map (·.1)).Nodup := by
+    intro c m f hf; simp at hf
+  cases cmd with
+  | op V o =>
+    cases V with
+    | cls c => exact LocalNodup_same σ _ h (classOp_insts σ c o)
+    | inst i => exact LocalNodup_instOp σ h i o
+  | subclass p => simp only [step]; split <;> first | exact LocalNodup_same σ _ h rfl | exact h
+  | subclassMI t => simp only [step]; split <;> first | exact LocalNodup_same σ _ h rfl | exact h
+  | usingProps p init => simp only [step]; split <;> first | exact LocalNodup_same σ _ h rfl | exact h
+  | usingShared p ow =>
+    simp only [step]; split
+    · split <;> first | exact LocalNodup_same σ _ h rfl | exact h
+    · exact h
+  | withProps p ps =>
+    simp only [step]; split
+    · exact LocalNodup_same σ _ h (classOp_insts _ _ _)
+    · exact h
+  | newInst c => simp only [step]; split <;> first | exact LocalNodup_addInst σ h _ (hnil c) | exact h
+  | newInstWith c m =>
+    simp only [step]; split <;> first | exact LocalNodup_addInst σ h _ (hplain c _) | exact h
+  | assign i m =>
+    simp only [step]; split
+    · exact h
+    · exact LocalNodup_setInst σ h i _ (fun f hf => by simp at hf)
+  | newInstCompound c m =>
+    simp only [step]; split
+    · exact LocalNodup_addInst (usingPropsStep σ c m) (LocalNodup_same σ _ h rfl) _ (hnil _)
+    · exact h
+
+theorem LocalNodup_run (cmds : List Cmd) (σ : State) (h : LocalNodup σ) : LocalNodup (run σ cmds).1 := by
+  induction cmds generalizing σ with
+  | nil => exact h
+  | cons c cs ih => simp only [run]; exact ih _ (LocalNodup_step σ h c)
+
+theorem LocalNodup_initState (init : List (Key × Val)) : LocalNodup (initState init) := by
+  intro i x f hx; simp [initState] at hx
+
+/-- the view goes through `_TypeLookup` / `_InstanceLookup` (an existing class, or an instance
+    that still uses local storage) -/
+def lookupView (σ : State) : View → Bool
+  | .cls c => decide (c < σ.classes.length)
+  | .inst i =>
+    match σ.insts[i]? with
+    | some ⟨_, .storage _⟩ => true
+    | _ => false
+
+/-- **Results along guarded histories.**  After any guarded history, whatever method is called
+    next through a class view or an attached instance view returns what a Python dict holding the
+    *reference* mapping of that view would return (order-free methods: `[]`, `get`, `in`, `del`,
+    `pop`, `setdefault`, …), and the iterating methods (`items`, `keys`, `values`, `copy`, `bool`,
+    `==`, `!=`) are computed on a duplicate-free listing of exactly the reference mapping. -/
+theorem c17_results_partial (init : List (Key × Val)) (pre : List Cmd)
+    (hg : histGuard (initState init) pre = true) (v : View) (o : Op)
+    (hv : lookupView (run (initState init) pre).1 v = true) :
+    let m := Spec.visible (Spec.run (abs (initState init)) pre) v
+    (∀ r, dictResult o m = some r → (step (run (initState init) pre).1 (.op v o)).2 = r) ∧
+    ∃ l, ItemsOf m l ∧ ∀ r, iterResult l o = some r → (step (run (initState init) pre).1 (.op v o)).2 = r := by
+  obtain ⟨hr, hi⟩ := refine_run pre _ (Inv_initState init) hg
+  have hn := LocalNodup_run pre _ (LocalNodup_initState init)
+  have hm := read_is_overlay_all _ hi.wf hi.co v
+  rw [hr] at hm
+  simp only
+  rw [← hm]
+  generalize (run (initState init) pre).1 = σ at hi hn hv
+  cases v with
+  | cls c =>
+    have hc : c < σ.classes.length := by simpa [lookupView] using hv
+    obtain ⟨d, hd, _⟩ := hi.co c hc
+    exact ⟨fun r h => dict_result_class σ c hc d hd o r h, iter_result_class σ c hc d hd o⟩
+  | inst i =>
+    cases hx : σ.insts[i]? with
+    | none => simp [lookupView, hx] at hv
+    | some x =>
+      obtain ⟨c, loc⟩ := x
+      cases loc with
+      | plain m => simp [lookupView, hx] at hv
+      | storage f =>
+        obtain ⟨d, hd, _⟩ := hi.co c (hi.wf.inst_lt i _ hx)
+        have hnf := hn i _ f hx rfl
+        exact ⟨fun r h => dict_result_inst σ i _ f d hx rfl hd hnf o r h,
+          iter_result_inst σ i _ f d hx rfl hd hnf o⟩
+
+/-- each witness trips its own guard component and no other -/
+theorem witnesses_trip_own_guard :
+    (witnessClear.all (fun c => decide (CmdOK c) && decide (NoSharing c)) = true ∧
+      badClear (run (initState []) (witnessClear.take 3)).1 (.op (.inst 0) .clear) = true) ∧
+    (witnessShared.all (fun c => decide (CmdOK c)) = true ∧ ¬ NoSharing (.usingShared 0 0)) ∧
+    (witnessMI.all (fun c => decide (CmdOK c) && decide (NoSharing c)) = true ∧
+      miGuard (run (initState []) (witnessMI.take 3)).1 (.subclassMI [1, 2, 0]) = false) := by decide
+
+/-! ### non-vacuity of `c17_histories_partial` -/
+
+/-- parent P(0) with `{k: 0}`, children A(1) and B(2), grandchild G(3) of A, a class D(4) made by
+    `A.using(properties={t: None})`, a diamond X(5) = `class X(A, B)`, instances of A (0) and G (1);
+    then writes, deletions, `pop`, `setdefault`, `update`, `clear` on a class and on an instance,
+    a wholesale assignment, and reads through class and instance views -/
+def guardedHist : List Cmd :=
+  [.subclass 0, .subclass 0, .subclass 1, .usingProps 1 [(kT, .none)], .subclassMI [1, 2, 0],
+   .newInst 1, .newInst 3,
+   .op (.cls 0) (.setitem kA (.int 1)),
+   .op (.cls 1) (.setitem kB (.int 2)),
+   .op (.cls 1) (.delitem kA),
+   .op (.cls 2) (.pop kK none),
+   .op (.inst 0) (.setdefault kA (.int 5)),
+   .op (.cls 3) (.setdefault kB (.int 9)),
+   .op (.inst 1) (.delitem kB),
+   .op (.cls 3) (.update [(kS, .int 3), (kA, .int 4)]),
+   .op (.inst 1) .clear,
+   .op (.cls 1) .clear,
+   .op (.cls 0) (.setitem kB (.int 7)),
+   .op (.cls 4) (.pop kT (some (.int 0))),
+   .withProps 2 [(kS, .int 8)],
+   .newInstWith 6 [(kA, .int 6)],
+   .op (.cls 0) .items, .op (.cls 1) (.getitem kB), .op (.cls 2) (.get kA .none),
+   .op (.inst 0) .keys, .op (.inst 1) (.contains kS), .op (.cls 5) .items]
+
+theorem guardedHist_ok : histGuard (initState [(kK, .int 0)]) guardedHist = true := by decide
+
+/-- so every view reads as the layered reference after this history … -/
+example (v : View) (k : Key) :
+    visible (run (initState [(kK, .int 0)]) guardedHist).1 v k
+      = Spec.visible (Spec.run (abs (initState [(kK, .int 0)])) guardedHist) v k :=
+  c17_histories_partial _ _ v k guardedHist_ok
+
+/-- … and the history is not a no-op: the views differ from each other in the expected ways
+    (P keeps `k`, A was cleared and then sees only P's later write, B popped `k`, G's own `update`
+    survives A's `clear`, the instance of A keeps its own `setdefault`, the diamond X sees A's
+    tombstones before B and P, the `with_properties` class 6 adds `s`, its instance is detached) -/
+example :
+    let σ := (run (initState [(kK, .int 0)]) guardedHist).1
+    visible σ (.cls 0) kK = some (.int 0) ∧ visible σ (.cls 0) kA = some (.int 1) ∧
+    visible σ (.cls 1) kK = none ∧ visible σ (.cls 1) kA = none ∧ visible σ (.cls 1) kB = none ∧
+    visible σ (.cls 2) kK = none ∧ visible σ (.cls 2) kA = some (.int 1) ∧ visible σ (.cls 2) kB = some (.int 7) ∧
+    visible σ (.cls 3) kA = some (.int 4) ∧ visible σ (.cls 3) kS = some (.int 3) ∧
+    visible σ (.cls 4) kT = none ∧ visible σ (.cls 4) kK = none ∧
+    visible σ (.cls 5) kA = none ∧ visible σ (.cls 5) kB = none ∧
+    visible σ (.cls 6) kS = some (.int 8) ∧ visible σ (.cls 6) kB = some (.int 7) ∧
+    visible σ (.inst 0) kA = some (.int 5) ∧ visible σ (.inst 1) kS = none ∧
+    visible σ (.inst 2) kA = some (.int 6) ∧ visible σ (.inst 2) kK = none := by decide
+
+/-- `c17_results_partial`: after the history, `pop` through B returns the value inherited from P,
+    and through the instance of G (cleared, then nothing written) `in` is false -/
+example : (step (run (initState [(kK, .int 0)]) guardedHist).1 (.op (.cls 2) (.pop kA none))).2 = .val (.int 1) :=
+  (c17_results_partial _ guardedHist guardedHist_ok (.cls 2) _ (by decide)).1 _ (by decide)
+example : (step (run (initState [(kK, .int 0)]) guardedHist).1 (.op (.inst 1) (.contains kS))).2 = .bool false :=
+  (c17_results_partial _ guardedHist guardedHist_ok (.inst 1) _ (by decide)).1 _ (by decide)
+
 end Flatland.C17.Proofs
